@@ -102,6 +102,65 @@ theorem C45_strict_group_needs_member_witness (env : Env) (tx : Tx) (w : World) 
   obtain ⟨s, hs1, hs2⟩ := List.mem_map.mp hi
   exact ⟨s, hs1, by rw [hs2]; exact hl, h.2 s hs1⟩
 
+/-- **A group controller is only ever what the registrant configured.** The controller record of an identity becomes
+a group `g` (threshold 0 and nested threshold-0 sub-groups included) in exactly one way: a successful
+`regIDWithController` of the then-unregistered identity with that very group as argument and a valid `GroupProof`
+*of that group*. No method changes a controller afterwards (`removeController` / revocation only delete it). A group
+with threshold 0 is accepted (`rDeserialize` only refuses `threshold > len(members)`; `validateMembers` does not look
+at thresholds and is not even called for controllers) and is then satisfied by an empty signer list: whoever
+registers the identity chooses "everyone may act", nobody can impose it on an existing identity. -/
+theorem C45_group_controller_only_by_registration (env : Env) (tx : Tx) (w w' : World) (op : Op) (g : Grp)
+    (h : step env tx w op = (w', .ok)) (hnew : (w' (op.target env)).ctrl = some (.group g))
+    (hold : (w (op.target env)).ctrl ≠ some (.group g)) :
+    ∃ p ss, op = .regIDWithController (op.target env) (.group g) p ∧ (w (op.target env)).status = .absent ∧
+      p.asSigners = some ss ∧ GroupProof env tx w g ss := by
+  have P := step_ok h
+  obtain ⟨x, hx, hw⟩ := P.eff
+  have hx' : (w' (op.target env)).ctrl = x.ctrl := by rw [hw]; simp [World.set, Op.target]
+  unfold Op.target at *
+  rcases applyEff_ctrl hx with h1 | ⟨c, hc, h2⟩ | ⟨h3, _⟩
+  · rw [hx', h1] at hnew; exact absurd hnew hold
+  · obtain ⟨p, hop, hauth⟩ := plan_eff_regCtrl hc
+    have ha := authOk_sound P.auth
+    rw [hauth] at ha
+    obtain ⟨c', hc', hp⟩ := ha
+    rw [hx', h2, hc'] at hnew
+    cases hnew
+    have hcg : c = .group g := by
+      cases c <;> simp [CtrlArg.toCtrl] at hc'
+      rw [hc']
+    subst hcg
+    obtain ⟨ss, hs, hg⟩ := hp
+    have hst := (statusOk_status P.status).1 (by rw [hop]; simp [plan])
+    exact ⟨p, ss, hop, hst.1, hs, hg⟩
+  · rw [hx', h3] at hnew; cases hnew
+
+/-- **A recovery group is only ever what the owner (or the previous recovery group) configured.** The recovery
+record of an identity becomes a group `g` only by `setRecovery` witnessed by a non-revoked authentication key of the
+identity itself, or by `updateRecovery` carrying a valid `GroupProof` of the recovery group stored before. -/
+theorem C45_recovery_group_only_by_owner_or_recovery (env : Env) (tx : Tx) (w w' : World) (op : Op) (g : Grp)
+    (h : step env tx w op = (w', .ok)) (hnew : (w' (op.target env)).recov = .grp g)
+    (hold : (w (op.target env)).recov ≠ .grp g) :
+    (∃ idx, op = .setRecovery (op.target env) (some g) idx ∧ KeyWitness env tx w (op.target env) idx) ∨
+    (∃ p g0 ss, op = .updateRecovery (op.target env) (some g) p ∧ (w (op.target env)).recov = .grp g0 ∧
+      p.asSigners = some ss ∧ GroupProof env tx w g0 ss) := by
+  have P := step_ok h
+  obtain ⟨x, hx, hw⟩ := P.eff
+  have hx' : (w' (op.target env)).recov = x.recov := by rw [hw]; simp [World.set, Op.target]
+  unfold Op.target at *
+  have ha := authOk_sound P.auth
+  rcases applyEff_recov hx with h1 | ⟨g', b, he, h2⟩ | ⟨a, b, _, h2⟩ | ⟨h3, _⟩
+  · rw [hx', h1] at hnew; exact absurd hnew hold
+  · rw [hx', h2] at hnew
+    cases hnew
+    rcases plan_eff_setRecGrp he with ⟨idx, hop, hauth⟩ | ⟨p, hop, hauth⟩
+    · rw [hauth] at ha; exact Or.inl ⟨idx, hop, ha⟩
+    · rw [hauth] at ha
+      obtain ⟨g0, ss, hr, hs, hg⟩ := ha
+      exact Or.inr ⟨p, g0, ss, hop, hr, hs, hg⟩
+  · rw [hx', h2] at hnew; cases hnew
+  · rw [hx', h3] at hnew; cases hnew
+
 /-- **No rights, no change.** A valid identity without controller and without recovery, none of whose witnessed
 keys is a non-revoked authentication key, cannot be changed by that transaction through any method. -/
 theorem C45_no_rights_no_change (env : Env) (tx : Tx) (w : World) (op : Op)
@@ -213,5 +272,17 @@ example : ((trace exEnv World.empty
       (txOf [a0], .removeKeyByController i1 0 { asIndex := some 1, asSigners := none }),
       (txOf [a0], .removeKeyByController i1 7 { asIndex := some 1, asSigners := none }) ]).map (·.res))
     = [.ok, .ok, .fail, .fail] := by decide
+
+/-- threshold-0 configurations are accepted and then need no witness: controller at registration … -/
+example : ((trace exEnv World.empty
+    [ (txOf [], .regIDWithController i0 (.group (.sub [] 0)) { asIndex := some 0, asSigners := some [] }),
+      (txOf [], .addKeyByController i0 k0 { asIndex := some 0, asSigners := some [] } none) ]).map (·.res)) = [.ok, .ok] := by decide
+/-- … and recovery only with the owner's key (second op: same request without the witness) -/
+example : ((trace exEnv World.empty
+    [ (txOf [a0], .regIDWithPublicKey i0 k0),
+      (txOf [], .setRecovery i0 (some (.sub [] 0)) 1),
+      (txOf [a0], .setRecovery i0 (some (.sub [] 0)) 1),
+      (txOf [], .addKeyByRecovery i0 k1 { asIndex := some 0, asSigners := some [] } none) ]).map (·.res))
+    = [.ok, .fail, .ok, .ok] := by decide
 
 end OntVerif.Props.C45
